@@ -4,7 +4,7 @@
 # Appends one line per change to seeded/RESULTS-<tier>.tsv.
 tier=$1; par=$2; shift 2
 cd /verif
-dirs=${@:-$(ls -d seeded/C*-[mnpqrstuv]*)}
+dirs=${@:-$(ls -d seeded/C*-[mnpqrstuvw]*)}
 # the checks run from a snapshot of /verif's HEAD, so that editing /verif meanwhile does not disturb the evaluation
 snap=/tmp/evalsnap-$$
 git -C /verif worktree add -q --detach $snap HEAD || exit 2
